@@ -54,9 +54,26 @@ Ltac b64run :=
             | _ => rewrite (bind_ok e k) by reflexivity; cbv beta
             end
           else
-            let H := fresh "Hev" in
-            eassert (H : e = _) by (b64run; py_canon_refl);
-            rewrite H; clear H
+            (* call-by-value below the bind: innermost operator applications with canonical arguments
+               first (the generated dispatch wrappers mention their arguments twice: plain weak-head
+               evaluation of a nested Python expression of depth n costs 2^n) *)
+            first [ progress (repeat (lazymatch goal with |- bind ?E _ = _ =>
+                      match E with
+                      | context [?f ?o ?a ?b] =>
+                          lazymatch type of o with FloatOps _ => idtac end;
+                          is_canon a; is_canon b;
+                          lazymatch type of (f o a b) with val _ => idtac end;
+                          let H := fresh "Hin" in
+                          eassert (H : f o a b = _) by (b64run; py_canon_refl); rewrite H; clear H
+                      | context [?g ?o] =>       (* a module-level constant g_NAME O *)
+                          lazymatch type of o with FloatOps _ => idtac end;
+                          lazymatch type of (g o) with val _ => idtac end;
+                          let H := fresh "Hin" in
+                          eassert (H : g o = _) by (b64run; py_canon_refl); rewrite H; clear H
+                      end end))
+                  | let H := fresh "Hev" in
+                    eassert (H : e = _) by (b64run; py_canon_refl);
+                    rewrite H; clear H ]
       | VTuple ?xs => first_noncanon xs ltac:(fun x =>
             let H := fresh "Hev" in
             eassert (H : x = _) by (b64run; py_canon_refl); rewrite H; clear H)
